@@ -292,6 +292,32 @@ func RunCheck(opts CheckOpts) *CheckReport {
 		fmt.Fprintf(os.Stderr, "load %.1fs vcgen %.1fs obligations %d\n", loadS, genS, len(obls))
 	}
 
+	// known findings first: if the recorded failing input of a known finding still fails on the real code, its
+	// obligation is reported as KNOWN-FINDING without being solved again (any other obligation is solved as usual)
+	knownPre := loadKnown()
+	var preKnownLines []string
+	nPreKnown := 0
+	if !opts.NoReplay {
+		var keep []*Obligation
+		for _, o := range obls {
+			skip := false
+			for _, k := range knownPre {
+				if k.Status == "known" && k.Property == opts.Prop && k.Obligation == o.Name && !o.Probe {
+					if prog.KnownInputStillFails(opts, k, nil, frs, work) {
+						skip = true
+						preKnownLines = append(preKnownLines, fmt.Sprintf("KNOWN-FINDING: property=%s %s: %s [input: %s]", opts.Prop, k.Obligation, k.What, truncate(k.Input, 160)))
+					}
+				}
+			}
+			if skip {
+				nPreKnown++
+			} else {
+				keep = append(keep, o)
+			}
+		}
+		obls = keep
+	}
+
 	// solve in parallel
 	results := make([]*OblResult, len(obls))
 	var wg sync.WaitGroup
@@ -524,6 +550,7 @@ func RunCheck(opts CheckOpts) *CheckReport {
 			say("  input: %s", inputDesc)
 		}
 	}
+	knownLines = append(knownLines, preKnownLines...)
 	sort.Strings(knownLines)
 	var lastK string
 	for _, l := range knownLines {
